@@ -8,6 +8,7 @@ package main
 
 import (
 	"fmt"
+	"math"
 	"sort"
 	"strconv"
 	"strings"
@@ -83,6 +84,15 @@ func gen(r *sim.Rng, tier string) *sim.Case {
 		}
 		if r.Pct(10) {
 			p["prepanic"] = 1 + r.N(2*n+6) // an earlier call whose callback panicked at its k-th invocation
+		}
+		if p["scen"] == 0 && r.Pct(4) {
+			// items that can never fit, as heavy as an int can say (their weights must not be
+			// added up carelessly)
+			for k := r.Range(1, 2); k > 0; k-- {
+				// (D names the weight: numbers beyond 2^53 do not survive the JSON of a replay file)
+				c.Ops = append(c.Ops, sim.Op{Op: "Item", D: 1 + r.N(4), V: 1 + vdom + r.N(5)})
+			}
+			p["huge"] = 1
 		}
 		p["over"] = r.N(2)
 	case 2:
@@ -173,6 +183,13 @@ func items(c *sim.Case) []item {
 		if w < 0 {
 			w = 0
 		}
+		if op.D > 0 {
+			lim := c.P("limit")
+			if lim < 0 {
+				lim = 0
+			}
+			w = []int{math.MaxInt, math.MaxInt - 1, math.MaxInt/2 + 1, math.MaxInt - lim}[(op.D-1)%4]
+		}
 		if v < 1 {
 			v = 1
 		}
@@ -256,7 +273,7 @@ func secondCall(c *sim.Case, out *sim.WorkerOut, its []item, limit int) {
 	other := make([]item, len(its))
 	for i := range its {
 		o := its[len(its)-1-i]
-		other[i] = item{idx: i, w: o.w + 1, v: o.v + 2}
+		other[i] = item{idx: i, w: satAdd(o.w, 1), v: o.v + 2}
 	}
 	wf, vf := func(i item) int { return i.w }, func(i item) int { return i.v }
 	_ = algz.Knapsack(limit+3, other, wf, vf, breakerOf(c.P("breaker"))...)
@@ -268,6 +285,14 @@ func secondCall(c *sim.Case, out *sim.WorkerOut, its []item, limit int) {
 		g.AddUndirectedEdge(i, (i+2)%5)
 	}
 	_ = g.GetMaximalCliques()
+}
+
+// satAdd adds non-negative weights without wrapping around (items may weigh math.MaxInt).
+func satAdd(a, b int) int {
+	if a > math.MaxInt-b {
+		return math.MaxInt
+	}
+	return a + b
 }
 
 func knap(c *sim.Case, out *sim.WorkerOut, dg *engc.Digest) *sim.Violation {
@@ -287,7 +312,7 @@ func knap(c *sim.Case, out *sim.WorkerOut, dg *engc.Digest) *sim.Violation {
 		if it.idx >= len(its) || its[it.idx] != it {
 			return viol("item_invented", "Knapsack", "selection contains %+v which is not an input item", it)
 		}
-		tw += it.w
+		tw = satAdd(tw, it.w)
 		tv += it.v
 	}
 	dg.Add(tw, tv)
@@ -301,7 +326,7 @@ func knap(c *sim.Case, out *sim.WorkerOut, dg *engc.Digest) *sim.Violation {
 			w, v := 0, 0
 			for i, it := range its {
 				if m&(1<<i) != 0 {
-					w += it.w
+					w = satAdd(w, it.w)
 					v += it.v
 				}
 			}
